@@ -297,34 +297,32 @@ func vRunCase(t *testing.T, out *vOut, dir string, maxTries int, bounce, nullSen
 		t.Fatal(err)
 	}
 
-	// quiescence: the message left the spool, or every planned attempt was made and nothing moves
+	// quiescence: the message left the spool, or the queue has nothing left to do (nothing on the
+	// wheel, nobody holding the delivery semaphore) over several polls.  The directory alone is not a
+	// criterion: on a loaded machine the bookkeeping of the last attempt can take long.
 	removed := false
-	deadline := time.Now().Add(5 * time.Second)
+	idle := 0
+	deadline := time.Now().Add(8 * time.Second)
 	for time.Now().Before(deadline) {
 		if _, err := os.Stat(filepath.Join(dir, id+".meta")); os.IsNotExist(err) {
 			removed = true
 			break
 		}
-		tgt.mu.Lock()
-		n := len(tgt.attempts)
-		tgt.mu.Unlock()
-		if n >= len(plans) {
-			// one more grace period for the last attempt's bookkeeping
-			time.Sleep(15 * time.Millisecond)
-			tgt.mu.Lock()
-			n2 := len(tgt.attempts)
-			tgt.mu.Unlock()
-			if n2 > len(plans) {
-				break
-			}
-			if _, err := os.Stat(filepath.Join(dir, id+".meta")); os.IsNotExist(err) {
-				removed = true
-			}
-			if removed || n2 == n {
+		q.wheel.slotsLock.Lock()
+		busy := q.wheel.slots.Len() != 0
+		q.wheel.slotsLock.Unlock()
+		if len(q.deliverySemaphore) != 0 {
+			busy = true
+		}
+		if busy {
+			idle = 0
+		} else {
+			idle++
+			if idle > 20 {
 				break
 			}
 		}
-		time.Sleep(200 * time.Microsecond)
+		time.Sleep(500 * time.Microsecond)
 	}
 	q.Close()
 	// leftovers
